@@ -99,9 +99,9 @@ CLAIMED = {
              "exact model with the same 1e-9 truncation; all clauses evaluated on the implementation against an "
              "independent permanent-based reference.",
         technique="Lean 4 proofs over an executable model of both backends + correspondence check with exact rationals",
-        note="slos = permanent (layer recursion vs permanent formula) is validated by running both models and both "
-             "backends on every case; its Lean proof is planned on top of the fibre-sum lemma. Floating point is outside "
-             "the model (exact rationals).",
+        note="Also proved: slos = permanent at amplitude level (layer recursion = perm/t!), backends agree on every "
+             "non-vacuum pattern for every truncation, exact normalisation (total = 1) for unitary U_full and for "
+             "mixtures. Floating point is outside the model (exact rationals).",
         ref="§5 C04"),
     "C05": dict(
         text="Executable Lean model of post-selection rules, Analyzer.analyze (outputs, loss-configuration sums, "
@@ -110,9 +110,48 @@ CLAIMED = {
              "with the exact model.",
         technique="Lean 4 theorems over an executable model of Analyzer/QuickSampler + impl-vs-impl relation oracle "
                   "and model correspondence",
-        note="The relation theorems (analyzer = sampler lookup, quick = conditional) are being proved; until then the "
-             "Lean side provides the exact reference and the relations are checked numerically on every case.",
+        note="Proved: analyzer entry = marginal over loss configurations = sampler lookup; outputs = accepted "
+             "candidates; performance / error-rate definitions; quick sampler = normalised conditional (sums to one); "
+             "squared simulator amplitude = sampler probability (lossless). Division by a zero accepted total is "
+             "undefined in the code (NaN) and total in the model; compared only when defined.",
         ref="§5 C05"),
+    "C07": dict(
+        text="Executable Lean model of the detector (tape version and exact kernel) and of the sampling pipelines "
+             "(sample_N_inputs, sample_N_outputs, sample) as functions of the random tape; the harness reproduces the "
+             "uniform variates numpy / stdlib draw from the seed and demands sample-by-sample agreement with the model, "
+             "checks every returned state against heralds / post-selection / min_detection / herald removal, exactly-N "
+             "and seed determinism, and tests empirical frequencies against the model's exact "
+             "detected/heralded/post-selected distribution (chi-square, false-alarm bound 1e-9).",
+        technique="Lean 4 model of the pipeline as a function of the random tape + exact tape-replay correspondence; "
+                  "statistical validation labelled as such",
+        note="PARTIAL: PRNG contracts (numpy Generator.choice = inverse CDF on Generator.random, stdlib random) are "
+             "trusted and self-tested each run; 'converges in the limit' is the law of large numbers applied to the "
+             "exact kernel and is not formalised. Known finding F13 (Sampler.sample ignores heralds).",
+        ref="§5 C07"),
+    "C11": dict(
+        text="Lean refinement theorem over the cache model: if the computed value factors through the configuration "
+             "snapshot then, after ANY history of reconfigurations and reads, every read returns what a fresh object "
+             "with the current configuration computes; the repaired snapshot determines the configuration (so every "
+             "computation factors through it), the pinned one does not (F10 witness with a stale read). The check "
+             "drives long-lived Sampler/QuickSampler/Analyzer objects through random histories and compares every "
+             "observation with a fresh object built from the current settings.",
+        technique="Lean 4 cache-refinement proof by induction over histories + long-lived vs fresh object differential check",
+        note="The model abstracts U_full and source values to identifiers with decidable equality; `compute` of the "
+             "implementation is taken to be a fresh object's result.",
+        ref="§5 C11"),
+    "C19": dict(
+        text="Proved for all circuits, options and both back-ends on the model: Display never indexes outside the "
+             "location arrays and never takes max() of an empty sequence; it raises DisplayError exactly for an unknown "
+             "type or a wrong label-list length; it returns the pool unchanged. The invariant these theorems need is "
+             "proved to hold after any history of API calls (nested, heralded, grouped additions and the rewrites), "
+             "given at least one mode per constructor. Tied to the code by running the real Display on generated "
+             "circuit trees (drawing size, axis limits, ticks, labels compared exactly; every live object checked "
+             "before/after).",
+        technique="Lean 4 proof of index safety and option validation over an executable model of both drawing "
+                  "back-ends + differential check of Display on generated circuit trees",
+        note="PARTIAL: drawsvg / matplotlib primitives and the text placed on the drawing are exercised but not "
+             "modelled. Known finding F25 (zero-mode circuits cannot be displayed).",
+        ref="§5 C19"),
 }
 
 PENDING_REASON = "check not built yet in this session (planned, see DESIGN.md §5 and §11); not claimed until its machinery exists"
